@@ -225,6 +225,8 @@ pub mod prim {
         { unimplemented!() }
 
         //@@ element_insert_by_id
+
+        //@@ element_delete_by_id
     }
 
     impl XmlAttribute {
@@ -301,6 +303,19 @@ def build():
                       inject=[(r'let index = self\.child_index\(id\)\.unwrap\(\);', f'proof {{ {lem}(old(self).{lst}@, value.ident, Some(id)); }}', 'before'),
                               (rf'self\.{lst}\.insert\(index, ', f'proof {{ assert({idsf}(self.{lst}@)[index as int] == value.ident); }}'),
                               (rf'self\.{lst}\.push\(', f'proof {{ assert({idsf}(self.{lst}@)[self.{lst}@.len() - 1] == value.ident); }}')])
+    fns['element_delete_by_id'] = Fn(
+        FI, 'impl HasChildren for XmlElement', 'delete_by_id', props=['C12'], safety_props=['C12'], sig_rules=SRP, label='XmlElement::delete_by_id',
+        rules=[Rule('R11', r'self\.children\.borrow_mut\(\)\.', 'self.children.', 'RefCell borrow dropped (A4)'),
+               Rule('R43', r'value\.set_parent_id\(None\);', 'self.world_set_parent_id(&value, None);', 'the parent link lives in the shared world: made explicit on the receiver')],
+        ensures=[('C12:unknown_child_changes_nothing', '!ids(old(self).children@).contains(id) ==> r is None && final(self).children@ == old(self).children@ && final(self).parent_of@ == old(self).parent_of@'),
+                 ('C12:removed_child_has_no_parent_and_is_not_listed',
+                  'ids(old(self).children@).contains(id) ==> r is Some && r->Some_0.ident == id && final(self).parent_of@ == old(self).parent_of@.insert(id, None)'
+                  ' && (exists|k: int| 0 <= k < old(self).children@.len() && old(self).children@[k].ident == id && final(self).children@ == old(self).children@.remove(k))')])
+    # C12 clauses on insert_by_id: the accepted child is listed exactly once
+    for key, lst, idsf in (('element_insert_by_id', 'children', 'ids'), ('attribute_insert_by_id', 'values', 'value_ids')):
+        fns[key].ensures.append(('C12:accepted_child_is_listed_exactly_once',
+                                 f'r is Ok ==> (forall|i: int, j: int| 0 <= i < final(self).{lst}@.len() && 0 <= j < final(self).{lst}@.len()'
+                                 f' && #[trigger] {idsf}(final(self).{lst}@)[i] == value.ident && #[trigger] {idsf}(final(self).{lst}@)[j] == value.ident ==> i == j)'))
     return ENV, fns
 
 
